@@ -129,6 +129,15 @@ def sock_cases(tier, rnd):
                     ["send", "zone_ctrl", "idem", "inline"],
                     ["send", "ac_ctrl", "idem", "inline"],
                     ["send", "quick_timer", "nonidem", "inline"], ["adv", 3.0]])
+    # --- one write failure, then the application keeps submitting during the same outage -
+    #     up to and beyond what the buffer holds: the failed command stays first in line
+    for more in (1, 5, 8, 9, 10, 12):
+        for pol in ("idem", "long"):
+            out.append([["q"], ["wfail", 1], ["net", "refuse", 0.0],
+                        ["send", "zone_ctrl", pol, "inline"], ["q"]]
+                       + [["send", S.KINDS[i % 3], "long" if i % 2 else "idem", "inline"]
+                          for i in range(more)]
+                       + [["adv", 3.0]])
     # --- random
     n = 300 if tier == "quick" else 150000
     for _ in range(n):
